@@ -239,9 +239,12 @@ let () =
                          if el > 0 then incr n_aged;
                          (* ai_ttl is an int: compare modulo 2^32; every address node must carry the aged
                             TTL of an address record of its family in the cached answer *)
+                         (* ARES_TTL_TO_INT (fix 6976102, property C18): a TTL with the top bit set is
+                            handed out as 0 in the int-typed result structures (RFC 2181 s.8) *)
+                         let ttl_to_int x = if x > 0x7FFFFFFF then 0 else x in
                          let m32 x = ((x mod 4294967296) + 4294967296) mod 4294967296 in
                          let want = List.filter_map (fun r -> let ty = int_of_z r.rr_type in
-                                                      if ty = 1 || ty = 28 then Some (ty, m32 (max 0 (int_of_z r.rr_ttl - el))) else None) rs.rs_an in
+                                                      if ty = 1 || ty = 28 then Some (ty, m32 (ttl_to_int (max 0 (int_of_z r.rr_ttl - el)))) else None) rs.rs_an in
                          let got = List.filter_map (fun (a, b) -> let ty = int_of_z a in if ty = 1 || ty = 28 then Some (ty, m32 (int_of_z b)) else None) h.ttls in
                          if not (List.for_all (fun x -> List.mem x want) got) then
                            fails := ("ttl_not_aged_addrinfo", Printf.sprintf "op=%d [%s] elapsed=%d %s" n op el cb) :: !fails)
